@@ -3,6 +3,7 @@ import RsslVerif.Lemmas.Include
 import RsslVerif.Lemmas.MacroSubst
 import RsslVerif.Lemmas.MacroApi
 import RsslVerif.Lemmas.SpecInert
+import RsslVerif.Lemmas.MacroHang
 /-!
 # C12 — macro expansion and inclusion equal reference textual substitution
 
@@ -13,7 +14,7 @@ by the correspondence run on generated macro programs.
 namespace RsslVerif.Thm.C12
 open RsslVerif.Gen.MacroTables RsslVerif.Model.Macro RsslVerif.Model.Include RsslVerif.Spec.CPre
 open RsslVerif.Lemmas.MacroScope RsslVerif.Lemmas.Include RsslVerif.Lemmas.MacroTerm RsslVerif.Lemmas.MacroSubst
-open RsslVerif.Lemmas.MacroApi RsslVerif.Lemmas.SpecInert
+open RsslVerif.Lemmas.MacroApi RsslVerif.Lemmas.SpecInert RsslVerif.Lemmas.MacroHang
 
 /-- Tie to the source: the shapes of `preprocess_command`, `apply_single_macro`, `preprocess_initial_file`,
 `Token::is_whitespace` and `compile()` the model was written against. -/
@@ -39,6 +40,18 @@ included), token list and search position, at any depth of the recursion. -/
 theorem expand_terminates (env : List Entry) (toks : List PTok) (sp : SearchPos) :
     ∃ r, applyLoop env toks sp = r ∧ ∀ w, r ≠ .error (.guard w) :=
   ⟨_, rfl, fun w => applyLoop_no_guard env toks sp w⟩
+
+/-- **expand_never_hangs.** `find_single_macro` has a `continue` that does not advance its index (taken for a
+`Concat` token left of `next_pos`): it would spin forever.  It is unreachable: started the way `apply_macros` starts
+it (`next_pos = 0`), the loop never has a `Concat` token left of `next_pos`, at any depth of the recursion -- and the
+token list it returns contains no `Concat` token at all (every `##` of a macro body is carried out or reported as an
+error before the expansion is handed back).  Together with `expand_terminates`: every call of `apply_macros` returns. -/
+theorem expand_never_hangs (defs : List Macro) (toks : List PTok) :
+    applyMacros defs toks ≠ .error .hang ∧
+    ∀ out, applyMacros defs toks = .ok out → ∀ t ∈ out, t.tok ≠ .concat := by
+  have := applyLoop_hang_free (defs.map (⟨·, false⟩)) toks SearchPos.start
+    (by simpa [SearchPos.start] using noConcat_nil)
+  exact this
 
 /-- non-vacuity: the macro table that overflowed the stack before the d00f5aa fix, `#define A B(A)`,
 `#define B(x) x`, on the text `A` (the run itself is in corpus/C12.txt, line 1) -/
